@@ -35,6 +35,23 @@ Parameter / regime coverage added by the audit of the signatures:
                              input (own QR sweep) the error / rss / rank-cap contract of the sweep, otherwise structure.
 * add_many: trunc_freq in {3,4,5,6,7,15,50} against m-1 in {2..30} (dividing, not dividing, default 15 firing at
   m = 16, 17, 31, never firing), leading numbers, float cap 2.7, each of e / r / trunc_freq left at its default.
+
+Input forms / magnitude slips (round 6):
+* `C02.truncate.wide_spectrum`  tensors whose d-1 unfoldings ALL have a prescribed spectrum (`gen.tt_spectrum`) with a wide
+  dynamic range: dominant values 1 .. 1e-2 and a tail at the level u = 3e-11 .. 1e-3 of the dominant one - clusters of
+  values each below the per-unfolding budget whose root-sum-square exceeds it, single values just above / far below it
+  (`wide_spectrum`: 9 templates); budget = u and (1 +- 1e-2) x the tails inside the cluster; weights in the first / a
+  middle / the last core, total scales 1e-6 .. 1e6, both stab flags, caps.  SVD mode: u down to 3e-11 with the LINEAR
+  rounding allowance 64 d r eps ||Y|| (the mode resolves singular values to eps ||Y||, so e = 1e-10 is a real
+  requirement there); eigen mode: u >= 1e-5 (allowance 16 d r eps ||Y||^2 in the squares, as in the other clauses).
+  All four contract clauses (ranks, error bound, rss-optimality, minimal ranks with the allowance as slack).
+  Also the documented CALL FORMS of truncate (everything positional in the documented order, prefix + keywords,
+  trailing defaults omitted - `gen.call_form` against `SIG`).
+* `C02.add_many.number_terms`   NUMBER summands among the tensors (`NUM_FAMILIES`): 0, +-0.0, negative, ints (10**20),
+  tiny (|v| <= 1e-16 - const's special branch -, its boundary 1e-16 / 1.0000001e-16, 1e-300, denormal), huge (1e30,
+  2e100), on data of the same scale (1e-100 .. 1e100) and far off it; leading / trailing / consecutive / interleaved;
+  call forms of add_many.  Bound as in sum_bound plus the eigen-mode allowance per rounding step.
+* `C02.add.number_term`         the step add(Y, v) / add(v, Y) itself: dense(Y) + v entry by entry to rounding.
 """
 import itertools, math
 import numpy as np
@@ -49,7 +66,11 @@ BOUNDS = ('d in {2,3,4} (thorough 5), modes 1..4 (thorough 5), ranks 1..4 incl. 
           'caps {1e12, 1, 2, 3, 2.7}, is_eigh x use_stab; add_many up to 31 summands, trunc_freq in {1,2,3,4,5,6,7,15,50} '
           'and defaults; d = 20..70 (thorough 100) with own QR/SVD oracles; per-core factors 2^+-100, 2^300, 2^-150 (stab); '
           'uneven per-core exponent profiles with one core <= 1e-100 (2^-345 / 2^-400) at every position after 2^3 / 2^-7 / 2^300; '
-          'mode sizes up to 1025 (thorough 2048); orth=False on pre-orthogonalised and raw inputs')
+          'mode sizes up to 1025 (thorough 2048); orth=False on pre-orthogonalised and raw inputs; prescribed wide spectra '
+          '(all unfoldings) with clustered tails at 3e-11..1e-3 of the dominant value, d = 2..4, SVD mode down to budgets 1e-10 ||Y|| '
+          '(linear allowance 64 d r eps ||Y||), eigen mode from 1e-5, thresholds +-1e-2; call forms of truncate / add_many; '
+          'number summands in add_many / add: 0, +-0.0, negative, ints, |v| <= 1e-16 (boundary, denormal), 1e30, 2e100 on data '
+          'of scale 1e-100..1e100')
 
 EPS = np.finfo(float).eps
 E_LIST = (0.9, 0.3, 0.1, 1e-2, 1e-3, 1e-5, 1e-8, 1e-10)
@@ -476,6 +497,99 @@ def truncate_no_orth(n, r, seed, kind, scale, e, cap, stab, eigh, pre):
     return PASS
 
 
+# ----------------------------------------------------------------------------- wide spectra with clustered tails
+
+# documented signatures (docstrings of /repo/teneva/transformation.py, act_many.py): parameter order and defaults
+REQ = gen.call_form.REQ
+SIG = {
+    'truncate': (('Y', 'e', 'r', 'orth', 'use_stab', 'is_eigh'), (REQ, 1e-10, 1e12, True, False, True)),
+    'add_many': (('Y_many', 'e', 'r', 'trunc_freq'), (REQ, 1e-10, 1e12, 15)),
+}
+
+
+def wide_spectrum(name, u):
+    """(singular values, per-unfolding budget) of a template in the unit u: a dominant part of size 1 .. 1e-2 and a
+    tail at the level u - clusters of values each below the budget whose root-sum-square exceeds it, single values just
+    above it, far below it; the number of droppable values is decided by the ACCUMULATED tail energy only."""
+    T = {
+        'c4a': ([1, 0.03] + [0.8 * u] * 4, u),                  # one of four may go (0.8; 1.13)
+        'c4b': ([1, 0.03] + [0.6 * u] * 4, u),                  # two of four (0.85; 1.04)
+        'two': ([1, 0.75 * u, 0.75 * u], u),                    # one of two (0.75; 1.06)
+        'mix9': ([3, 0.7, 1e-3 ** 0.5 * u ** 0.5, 30 * u, 0.9 * u, 0.9 * u, 0.7 * u, 0.7 * u, 0.6 * u], u),   # two of five
+        'stair': ([1, 0.01, 60 * u, 20 * u, 1e-3 * u], u),      # only the last one
+        'many8': ([1, 0.03] + [0.365 * u] * 8, u),              # seven of eight (0.966; 1.032)
+        'flat3': ([1, 1, 1] + [0.8 * u] * 3, u),                # one of three under a flat top
+        'keep': ([1, 0.5, 3 * u, 2 * u], u),                    # nothing may go: every value above the budget
+        'all': ([1, 0.2, 0.4 * u, 0.3 * u, 0.2 * u], u),        # the whole tail goes (0.54)
+    }
+    sv, eb = T[name]
+    return [float(x) for x in sv], float(eb)
+
+
+@clause('C02.truncate.wide_spectrum', funcs=('transformation.truncate', 'svd.matrix_svd', 'svd.matrix_skeleton'))
+def truncate_wide_spectrum(d, nk, s, eb, at, seed, scale, cap, stab, eigh, form='kw'):
+    """Tensors whose d-1 unfoldings all have the prescribed singular values s (gen.tt_spectrum: wide dynamic range, the
+    tail a cluster far below the dominant value), rounded with the per-unfolding budget eb (same units as s; a list
+    ['thr', q, sign] = (1 + sign 1e-2) x tail(q)), i.e. e = eb sqrt(d-1) / ||s||: ranks <= cap and input ranks; error
+    <= e ||Y|| unless the cap binds; error <= rss of the best unfolding errors at the returned ranks; no rank above the
+    smallest one meeting the budget.  Rounding allowance by mode: is_eigh=False (LAPACK SVD of the cores) resolves
+    singular values to eps ||Y||, so the allowance is LINEAR, 64 d r eps ||Y|| - budgets of 1e-10 ||Y|| are meaningful;
+    is_eigh=True (Gram matrix) resolves tail ENERGIES to eps ||Y||^2, allowance 16 d r eps ||Y||^2 in the squares."""
+    n = [nk] * d
+    f = float(scale) ** (1.0 / d)
+    Y = [G * f for G in gen.tt_spectrum(n, s, seed, at)]
+    D = gen.dense(Y)
+    nrm = float(np.linalg.norm(D))
+    if not (nrm > 0 and np.isfinite(nrm)):
+        return SKIP('zero tensor')
+    svs = spectra(D, n)
+    if isinstance(eb, (list, tuple)):
+        _, q, sign = eb
+        if not (1 <= q < len(s)):
+            return SKIP('no such threshold')
+        budget = tails(svs[0])[q] * (1 + sign * 1e-2)
+    else:
+        budget = float(eb) * float(scale)
+    e = budget * math.sqrt(d - 1) / nrm
+    if not (0 < e < 1):
+        return SKIP('e outside (0, 1)')
+    rin = [1] + [G.shape[2] for G in Y]
+    snap = gen.snapshot(Y)
+    Z = gen.call_form(teneva.truncate, SIG['truncate'][0], [Y, e, cap, True, stab, eigh], SIG['truncate'][1], form)
+    if gen.snapshot(Y) != snap:
+        return FAIL('input changed')
+    msg = gen.wf(Z, n)
+    if msg:
+        return FAIL('result not well-formed: ' + msg)
+    if not gen.finite(Z):
+        return FAIL('non-finite cores')
+    rk = [1] + [G.shape[2] for G in Z]
+    for k in range(1, d):
+        if rk[k] > max(1, int(cap)) or rk[k] > rin[k]:
+            return FAIL(f'rank {k} = {rk[k]} exceeds the cap {cap} or the input rank {rin[k]}')
+    err = float(np.linalg.norm(gen.dense(Z) - D))
+    lin = 0.0 if eigh else 64.0 * d * max(rin) * EPS * nrm
+    sq = 16.0 * d * max(rin) * EPS * nrm ** 2 if eigh else 0.0
+    what = f'(s = {s}, budget {budget:.4e}, e = {e:.4e}, ||Y|| = {nrm:.3e}, ranks {rin} -> {rk})'
+
+    def within(bound):
+        return err ** 2 <= bound ** 2 * (1 + 2e-6) + sq if eigh else err <= bound * (1 + 1e-6) + lin
+    best = math.sqrt(sum(tails(sv)[min(rk[k + 1], len(sv))] ** 2 for k, sv in enumerate(svs)))
+    if not within(best):
+        return FAIL(f'||Y-Z|| = {err:.6e} > rss of best unfolding errors {best:.6e} ' + what)
+    capbinds = cap < 1e6 and any(x >= max(1, int(cap)) for x in rk[1:-1])
+    if not capbinds and not within(e * nrm):
+        return FAIL(f'||Y-Z|| = {err:.6e} = {err / nrm:.6e} ||Y|| > e ||Y|| = {e * nrm:.6e} ' + what)
+    bud = budget * (1 - 5e-7)
+    for k, sv in enumerate(svs):
+        t = tails(sv)
+        ok = (t ** 2 <= bud ** 2 - sq) if eigh else (t <= bud - lin)
+        qmin = max(1, int(np.argmax(ok))) if ok.any() else len(sv)
+        if rk[k + 1] > qmin:
+            return FAIL(f'bond {k + 1}: rank {rk[k + 1]} > minimal rank {qmin} meeting the budget (tails {t[max(0, qmin - 1):qmin + 1]}) ' + what)
+    return PASS if rk != rin else TRIVIAL('nothing truncated')
+
+
 # ----------------------------------------------------------------------------- add_many
 
 @clause('C02.add_many.sum_bound', funcs=('act_many.add_many', 'transformation.truncate'))
@@ -550,7 +664,104 @@ def add_many_numbers(vals, freq):
     return PASS
 
 
+@clause('C02.add_many.number_terms', funcs=('act_many.add_many', 'act_two.add', 'tensors.const', 'transformation.truncate'))
+def add_many_number_terms(n, r, seed, terms, scale, e, cap, freq, form='mix:3'):
+    """add_many over a list that mixes TT-tensors ('T': random, total scale `scale`) with NUMBER summands (ints / floats
+    given literally in `terms`: zero, +-0.0, negative, tiny (|v| <= 1e-16, denormal), huge, of the scale of the data
+    or far off it).  Same contract as sum_bound: well-formed, same shape, ranks <= cap, distance to the dense sum within
+    the bound accumulated over the rounding steps (e x norm of the running sum each) plus rounding of the summation."""
+    d = len(n)
+    g = gen.rng('amn', n, r, seed, len(terms))
+    items, dense_items = [], []
+    for j, t in enumerate(terms):
+        if t == 'T':
+            rr = [1] + [int(x) for x in g.integers(1, max(r) + 1, size=d - 1)] + [1]
+            Y = make(n, rr, seed * 37 + j, 'gauss' if j % 3 else 'decay', scale)
+            items.append(Y)
+            dense_items.append(gen.dense(Y))
+        else:
+            if isinstance(t, bool) or not isinstance(t, (int, float)):
+                raise ValueError('terms: "T" or an int / float')
+            items.append(t)
+            dense_items.append(np.full(n, float(t)))
+    if all(not isinstance(x, list) for x in items):
+        return SKIP('number-only input (other clause)')
+    snap = gen.snapshot(items)
+    Z = gen.call_form(teneva.add_many, SIG['add_many'][0], [items, e, cap, freq], SIG['add_many'][1], form)
+    if gen.snapshot(items) != snap:
+        return FAIL('an input changed')
+    msg = gen.wf(Z, n)
+    if msg:
+        return FAIL('result not well-formed: ' + msg)
+    if not gen.finite(Z):
+        return FAIL('non-finite cores')
+    rk = [G.shape[2] for G in Z[:-1]]
+    if any(x > max(1, int(cap)) for x in rk):
+        return FAIL(f'ranks {rk} exceed the cap {cap}')
+    if cap < 1e6 and any(x >= max(1, int(cap)) for x in rk):
+        return TRIVIAL('cap binds: only structure and ranks checked')
+    # accumulated bound: E <- E + e' (||S_t|| + E) at every rounding step; leading numbers are summed as numbers.
+    # add_many rounds in the eigen-decomposition mode, whose error bound carries the allowance 16 d R eps ||S||^2 in the
+    # squares (as in C02.truncate.eigh_mode.error_bound; R = rank of the un-rounded sum): e'^2 = e^2 + 16 d R eps.  It only
+    # matters for e < 1e-6 on sums with a wide dynamic range (a huge number among small tensors).
+    R = sum(max(r) if isinstance(x, list) else 1 for x in items)
+    e1 = math.sqrt(e ** 2 * (1 + 2e-6) + 16.0 * d * R * EPS)
+    S = dense_items[0].copy()
+    E = 0.0
+    isnum = not isinstance(items[0], list)
+    for i, A in enumerate(dense_items[1:]):
+        S = S + A
+        isnum = isnum and not isinstance(items[i + 1], list)
+        if not isnum and (i + 1) % freq == 0:
+            E += e1 * (np.linalg.norm(S) + E)
+    E += e1 * (np.linalg.norm(S) + E)
+    tot = sum(np.linalg.norm(A) for A in dense_items)
+    err = float(np.linalg.norm(gen.dense(Z) - S))
+    lim = E * (1 + 1e-6) + 64 * d * len(terms) * EPS * tot
+    if not err <= lim:
+        return FAIL(f'|add_many - dense sum| = {err:.6e} > accumulated bound {lim:.6e} (terms {terms}, scale {scale}, e = {e}, '
+                    f'freq = {freq}, ||sum|| = {np.linalg.norm(S):.3e})')
+    return PASS
+
+
+@clause('C02.add.number_term', funcs=('act_two.add', 'tensors.const'))
+def add_number_term(n, r, seed, v, scale, side):
+    """The step add_many is built from: add(Y, v) / add(v, Y) with a number v is a well-formed TT-tensor of the shape of
+    Y whose dense form is dense(Y) + v entry by entry (to rounding: 64 d eps (|cores| chain + |v|)); Y is not changed."""
+    d = len(n)
+    Y = make(n, r, seed, 'gauss', scale)
+    if isinstance(v, bool) or not isinstance(v, (int, float)):
+        raise ValueError('v: int / float')
+    snap = gen.snapshot(Y)
+    Z = teneva.add(Y, v) if side == 'r' else teneva.add(v, Y)
+    if gen.snapshot(Y) != snap:
+        return FAIL('input changed')
+    msg = gen.wf(Z, n)
+    if msg:
+        return FAIL('result not well-formed: ' + msg)
+    want = gen.dense(Y) + float(v)
+    sc = gen.absdense(Y) + abs(float(v))
+    got = gen.dense(Z)
+    if not gen.close(got, want, sc, c=64.0 * d):
+        k = int(np.nanargmax(np.abs(got - want) / (sc + 1e-300)))
+        return FAIL(f'add with the number {v!r} ({side}): entry {got.flat[k]!r}, expected {want.flat[k]!r} (scale of the data {scale})')
+    return PASS
+
+
 # ----------------------------------------------------------------------------- case list
+
+# (scale of the TT summands, lists of NUMBER summands) for C02.add_many.number_terms / C02.add.number_term
+NUM_FAMILIES = [
+    (1.0, [[0], [0.0], [-0.0], [2.5, -0.75], [-3], [7, 0, -7], [5e-17], [-1e-16], [1e-16], [1.0000001e-16], [1e-300], [-5e-324],
+           [1e-17, -2e-17, 3e-17], [1e30], [-4e15, 4e15], [10 ** 20], [-10 ** 9, 1]]),
+    (1e-12, [[3e-12, -1e-13], [0], [5e-17], [-2e-12]]),
+    (1e-17, [[5e-17], [-4e-17, 1e-17], [1e-16], [1.0000001e-16], [-1.0000001e-16], [0.0], [2e-16, -1e-16], [9e-17, 9e-17]]),
+    (2e-18, [[-4e-17, 1e-17], [3e-18]]),
+    (1e-20, [[7e-20, 0.0], [-3e-20]]),
+    (1e-100, [[3e-100, -1e-100], [0]]),
+    (1e6, [[2.5e6], [-1, 1e-17], [3]]),
+    (1e100, [[2e100, -5e99], [1e-17]]),
+]
 
 TRUNC = ['C02.truncate.eigh_mode.error_bound', 'C02.truncate.eigh_mode.rss_optimal', 'C02.truncate.eigh_mode.rank_minimal',
          'C02.truncate.svd_mode.error_bound', 'C02.truncate.svd_mode.rss_optimal', 'C02.truncate.svd_mode.rank_minimal']
@@ -730,6 +941,45 @@ def cases(tier, seed):
             k, q = th[int(g.integers(0, len(th)))]
             for sign in (1, -1):
                 yield from _emit(dict(base0, e=[k, q, sign], cap=1e12, stab=bool(g.integers(0, 2))))
+    # wide dynamic range with clustered tails (every unfolding has the prescribed spectrum): the tail sits u = 3e-11 .. 1e-3
+    # below the dominant value; SVD mode down to budgets of 1e-10 ||Y|| (linear rounding allowance), eigen mode from 1e-5;
+    # thresholds at +-1 % around the tails inside the cluster; weights in the first / a middle / the last core
+    WNAMES = ('c4a', 'c4b', 'two', 'mix9', 'stair', 'many8', 'flat3', 'keep', 'all')
+    for wi, name in enumerate(WNAMES):
+        for eigh in (False, True):
+            us = ((1e-10, 3e-11, 1e-8) + ((1e-6, 1e-3) if big else ())) if not eigh else ((1e-5, 1e-3) + ((1e-4, 1e-10) if big else ()))
+            for ui, u in enumerate(us):
+                sv, eb = wide_spectrum(name, u)
+                for d in (2, 3, 4):
+                    nk = max(len(sv), 3) + (2 if d == 2 else 0)
+                    if nk ** d > (12000 if big else 3000):
+                        continue
+                    ebs = [eb] + [['thr', q, sg] for q in sorted({len(sv) - 1, max(2, len(sv) - 2)}) for sg in (1, -1)]
+                    if big:
+                        ebs += [['thr', q, sg] for q in range(2, len(sv) - 2) for sg in (1, -1)]
+                    for at in (range(d) if big else ((wi + ui + d) % d,)):
+                        for scale in ((1.0, 1e-6, 1e6) if big else ((1.0, 1e-6, 1e6)[(wi + ui + d + eigh) % 3],)):
+                            for stab in (False, True):
+                                for sd in range(2 if big else 1):
+                                    for bi, b in enumerate(ebs):
+                                        if not big and bi and (bi + stab + wi + d) % 2:
+                                            continue
+                                        yield 'C02.truncate.wide_spectrum', dict(d=d, nk=nk, s=sv, eb=b, at=at, seed=sd + 1, scale=scale,
+                                                                                 cap=1e12, stab=stab, eigh=eigh)
+                            for cap in (2, 3) + ((len(sv) - 1,) if big else ()):
+                                yield 'C02.truncate.wide_spectrum', dict(d=d, nk=nk, s=sv, eb=eb, at=at, seed=1, scale=scale, cap=cap,
+                                                                         stab=bool((wi + d) % 2), eigh=eigh)
+    # the documented call forms of truncate (all positional in the documented order, all keywords, prefix + keywords,
+    # trailing defaults left out) on the same family
+    for fi, form in enumerate(('pos', 'mix:1', 'mix:2', 'mix:3', 'mix:4', 'min', 'kwmin')):
+        for wi, name in enumerate(('c4a', 'two', 'stair', 'all')):
+            for eigh in (False, True):
+                sv, eb = wide_spectrum(name, 1e-10 if not eigh else 1e-4)
+                for stab in (False, True):
+                    for cap in (1e12, 2):
+                        d = 2 + (fi + wi) % 2
+                        yield 'C02.truncate.wide_spectrum', dict(d=d, nk=len(sv) + 1, s=sv, eb=eb, at=(fi + wi) % d, seed=5, scale=(1.0, 1e-6, 1e6)[(fi + wi) % 3],
+                                                                 cap=cap, stab=stab, eigh=eigh, form=form)
     # add_many
     am_shapes = [[3, 4], [2, 3, 2], [2, 1, 3], [2, 2, 2, 2]] + ([[3, 3, 3], [4, 2, 3, 2]] if big else [])
     for n in am_shapes:
@@ -757,6 +1007,44 @@ def cases(tier, seed):
             for m in (2, 6, 16, 17):
                 yield 'C02.add_many.sum_bound', dict(n=n, r=[1, 3, 1], seed=m, m=m, e=1e-6, cap=1e12 if dflt != 'e' else 4, freq=2,
                                                      nums=[], scale=(1.0, 1e-7)[m % 2], defaults=dflt)
+    # NUMBER summands of every kind among tensors of matching (and of far-off) scale: zero, +-0.0, negative, tiny
+    # (|v| <= 1e-16: const's special branch, its boundary 1e-16, denormals), huge, Python ints; leading / trailing /
+    # consecutive / interleaved positions; also the step add(Y, v), add(v, Y) itself
+    for fi, (scale, numlists) in enumerate(NUM_FAMILIES):
+        for li, nums in enumerate(numlists):
+            for pi in range(4):
+                if pi == 0:
+                    terms = ['T']
+                    for v in nums:
+                        terms += [v, 'T']
+                elif pi == 1:
+                    terms = list(nums) + ['T', 'T']
+                elif pi == 2:
+                    terms = ['T', 'T'] + list(nums)
+                else:
+                    terms = []
+                    for v in nums:
+                        terms += [v, 'T']
+                for ni, n in enumerate(([4, 5, 3], [3, 4], [3, 3, 2, 4])):
+                    if not big and (fi + li + pi + ni) % 3:
+                        continue
+                    for ei, e in enumerate((1e-6, 1e-10) + ((1e-2,) if big else ())):
+                        for freq in ((1, 2, 15) if big else ((1, 2, 15)[(li + pi + ei) % 3],)):
+                            yield 'C02.add_many.number_terms', dict(n=n, r=[1, 3, 1], seed=fi * 100 + li, terms=terms, scale=scale, e=e,
+                                                                    cap=1e12, freq=freq)
+                    if big or (li + pi) % 4 == 0:
+                        yield 'C02.add_many.number_terms', dict(n=n, r=[1, 3, 1], seed=fi * 100 + li, terms=terms, scale=scale, e=1e-6, cap=2, freq=2)
+            for v in nums:
+                for ni, n in enumerate(([4, 5, 3], [3, 4], [2, 1, 3, 2])):
+                    if not big and (fi + li + ni) % 3:
+                        continue
+                    for side in 'rl':
+                        yield 'C02.add.number_term', dict(n=n, r=[1] + [2] * (len(n) - 1) + [1], seed=fi * 10 + li, v=v, scale=scale, side=side)
+    for form in ('pos', 'kw', 'min', 'kwmin', 'mix:1', 'mix:2'):
+        for ti, terms in enumerate((['T', 2.5, 'T'], [-1, 'T', 'T', 'T'], ['T', 'T', 5e-17], ['T', 'T', 'T', 'T'])):
+            for e, cap, freq in ((1e-6, 1e12, 2), (1e-10, 1e12, 15), (1e-4, 2, 15), (1e-10, 3, 1), (1e-3, 1e12, 15)):
+                yield 'C02.add_many.number_terms', dict(n=[3, 4, 2], r=[1, 3, 1], seed=70 + ti, terms=terms, scale=(1.0, 1e-17, 1e5)[ti % 3],
+                                                        e=e, cap=cap, freq=freq, form=form)
     for vals in ([2], [2, 3], [1.5, -2, 4], [1, 2, 3, 4, 5, 6, 7], [0.1, 0.2, 0.3], [-1, 1]):
         for freq in (1, 2, 15):
             yield 'C02.add_many.numbers', dict(vals=vals, freq=freq)
